@@ -236,14 +236,36 @@ impl<'a> Q<'a> {
 }
 
 /// validate the encoder's NFA against regex-automata on concrete haystacks
-fn validate_nfa(nfa: &Nfa, hir: &Hir, samples: &[Vec<u8>], ascii_only: bool) -> Result<usize, String> {
+pub fn alpha_of(ascii: bool, eacute: bool) -> u8 {
+    if ascii {
+        1
+    } else if eacute {
+        2
+    } else {
+        0
+    }
+}
+
+fn restrict(enc: &mut Enc, alpha: u8) {
+    match alpha {
+        1 => enc.assume_ascii(),
+        2 => enc.assume_ascii_eacute(),
+        _ => {}
+    }
+}
+
+/// `alpha`: 0 = all byte strings, 1 = ASCII only, 2 = ASCII + well-formed U+00E9
+fn validate_nfa(nfa: &Nfa, hir: &Hir, samples: &[Vec<u8>], alpha: u8) -> Result<usize, String> {
     let re = regex_automata::meta::Regex::builder()
         .configure(regex_automata::meta::Regex::config().utf8_empty(false))
         .build_from_hir(hir)
         .map_err(|e| format!("cannot build reference engine: {}", e))?;
     let mut n = 0;
     for h in samples {
-        if ascii_only && h.iter().any(|b| *b >= 0x80) {
+        if alpha == 1 && h.iter().any(|b| *b >= 0x80) {
+            continue;
+        }
+        if alpha == 2 && !crate::nfa::is_ascii_eacute(h) {
             continue;
         }
         let mine = nfa.all_matches(h, 0, h.len());
@@ -323,12 +345,15 @@ pub fn run_program(ctx: &mut Ctx, z3: &mut Z3, patterns: &[String], o: &ROpts) {
     // automaton is restricted to ASCII and every query assumes bytes < 0x80.
     // Small automata are decided over all byte strings (invalid UTF-8 included).
     let big = nfa.n_core() > ASCII_ONLY_ABOVE;
-    let ascii = nfa.uses_unicode_word || big;
+    let ascii = big;
+    // Unicode word looks on a small automaton: inputs range over ASCII plus
+    // well-formed U+00E9, so that Unicode and ASCII word-ness differ
+    let eacute = nfa.uses_unicode_word && !big;
     if big {
         q.ctx.ascii_only += 1;
     }
     // translator validation, every program (on the unrestricted automaton)
-    match validate_nfa(&nfa, &built.final_hir, &q.ctx.samples.clone(), ascii) {
+    match validate_nfa(&nfa, &built.final_hir, &q.ctx.samples.clone(), alpha_of(ascii, eacute)) {
         Ok(k) => q.ctx.validated += k,
         Err(e) => {
             q.push("encoder-validation", "inconclusive", e, None, false);
@@ -340,12 +365,13 @@ pub fn run_program(ctx: &mut Ctx, z3: &mut Z3, patterns: &[String], o: &ROpts) {
     // non-vacuity witness for every obligation of this program: the compiled
     // pattern matches SOME haystack within the bound (concrete evaluation of the
     // sample set first, the solver otherwise)
-    let mut nonvac = q.ctx.samples.iter().any(|h| (!ascii || h.iter().all(|b| *b < 0x80)) && nfa.is_match(h, 0, h.len()));
+    let mut nonvac = q.ctx.samples.iter().any(|h| (!ascii || h.iter().all(|b| *b < 0x80)) && (!eacute || crate::nfa::is_ascii_eacute(h)) && nfa.is_match(h, 0, h.len()));
     if !nonvac {
-        let mut enc = Enc::new(l);
-        if ascii {
-            enc.assume_ascii();
-        }
+        // long mandatory literals: look for the witness at a length that can hold a match
+        let minlen = built.final_hir.properties().minimum_len().unwrap_or(0);
+        let lnv = if nfa.n_core() <= 90 && minlen + 1 > l { (minlen + 1).min(30) } else { l };
+        let mut enc = Enc::new(lnv);
+        restrict(&mut enc, alpha_of(ascii, eacute));
         let sim = enc.sim(&nfa, "0", "n", None);
         enc.assert(&Enc::any(&sim.m));
         nonvac = matches!(q.ask(&enc), Verdict::Sat { .. });
@@ -355,9 +381,7 @@ pub fn run_program(ctx: &mut Ctx, z3: &mut Z3, patterns: &[String], o: &ROpts) {
     // ---- H-TERM: no match contains the terminator
     if lt.is_some() && q.ctx.want("H-TERM") {
         let mut enc = Enc::new(l);
-        if ascii {
-            enc.assume_ascii();
-        }
+        restrict(&mut enc, alpha_of(ascii, eacute));
         let sim = enc.sim(&nfa, "0", "n", Some(&mark_set(&term)));
         enc.assert(&Enc::any(&sim.m1));
         match q.ask(&enc) {
@@ -389,16 +413,14 @@ pub fn run_program(ctx: &mut Ctx, z3: &mut Z3, patterns: &[String], o: &ROpts) {
                 any = true;
             }
         }
-        if ascii {
+        if ascii || eacute {
             for b in 128..256 {
                 mark[b] = false;
             }
         }
         if any {
             let mut enc = Enc::new(l);
-            if ascii {
-                enc.assume_ascii();
-            }
+            restrict(&mut enc, alpha_of(ascii, eacute));
             let sim = enc.sim(&nfa, "0", "n", Some(&mark));
             enc.assert(&Enc::any(&sim.m1));
             match q.ask(&enc) {
@@ -426,10 +448,12 @@ pub fn run_program(ctx: &mut Ctx, z3: &mut Z3, patterns: &[String], o: &ROpts) {
     if let (Some(fh), true) = (&built.fast_hir, q.ctx.want("H-PREFILTER")) {
         if let Ok(fnfa) = Nfa::from_hir(fh) {
             let fnfa = if ascii { fnfa.restrict_ascii() } else { fnfa };
-            let mut enc = Enc::new(l);
-            if ascii {
-                enc.assume_ascii();
-            }
+            // long literals need lines long enough to contain them: for small
+            // automata the bound follows the longest literal (up to 30 bytes)
+            let lmax = fh.properties().maximum_len().unwrap_or(0);
+            let le = if nfa.n_core() <= 90 && lmax + 3 > l { (lmax + 3).min(30) } else { l };
+            let mut enc = Enc::new(le);
+            restrict(&mut enc, alpha_of(ascii, eacute));
             no_terminator(&mut enc, &term);
             let a = enc.sim(&nfa, "0", "n", None);
             let b = enc.sim(&fnfa, "0", "n", None);
@@ -461,14 +485,14 @@ pub fn run_program(ctx: &mut Ctx, z3: &mut Z3, patterns: &[String], o: &ROpts) {
     // literals), whether or not the builder chose to use the literals
     if lt.is_some() && q.ctx.want("H-EXTRACT") {
         if let Some(lits) = grep_regex::verif_hooks::verif_extract(&built.final_hir) {
-            if !lits.is_empty() && lits.iter().all(|x| x.len() <= l) {
+            let lmax = lits.iter().map(|x| x.len()).max().unwrap_or(0);
+            let le = if nfa.n_core() <= 90 && lmax + 3 > l { (lmax + 3).min(30) } else { l };
+            if !lits.is_empty() && lmax <= le {
                 let lh = Hir::alternation(lits.iter().map(|x| Hir::literal(x.clone())).collect());
                 if let Ok(lnfa) = Nfa::from_hir(&lh) {
                     let lnfa = if ascii { lnfa.restrict_ascii() } else { lnfa };
-                    let mut enc = Enc::new(l);
-                    if ascii {
-                        enc.assume_ascii();
-                    }
+                    let mut enc = Enc::new(le);
+                    restrict(&mut enc, alpha_of(ascii, eacute));
                     no_terminator(&mut enc, &term);
                     let a = enc.sim(&nfa, "0", "n", None);
                     let b = enc.sim(&lnfa, "0", "n", None);
@@ -496,8 +520,9 @@ pub fn run_program(ctx: &mut Ctx, z3: &mut Z3, patterns: &[String], o: &ROpts) {
     if let (Ok(rh0), true) = (&reference, q.ctx.want("H-OPTS")) {
         let rh = &wrap_reference(rh0, o);
         if let Ok(rnfa) = Nfa::from_hir(rh) {
-            let rascii = ascii || rnfa.uses_unicode_word || (o.word && o.unicode) || rnfa.n_core() > ASCII_ONLY_ABOVE;
-            let ok_ref = validate_nfa(&rnfa, rh, &q.ctx.samples.clone(), rascii);
+            let rascii = ascii || rnfa.n_core() > ASCII_ONLY_ABOVE;
+            let reacute = !rascii && (eacute || rnfa.uses_unicode_word);
+            let ok_ref = validate_nfa(&rnfa, rh, &q.ctx.samples.clone(), alpha_of(rascii, reacute));
             if let Err(e) = ok_ref {
                 q.push("encoder-validation", "inconclusive", e, None, false);
             } else {
@@ -505,9 +530,7 @@ pub fn run_program(ctx: &mut Ctx, z3: &mut Z3, patterns: &[String], o: &ROpts) {
                 let nfa_o = if rascii && !ascii { nfa.restrict_ascii() } else { nfa.clone() };
                 let nfa = &nfa_o;
                 let mut enc = Enc::new(l);
-                if rascii {
-                    enc.assume_ascii();
-                }
+                restrict(&mut enc, alpha_of(rascii, reacute));
                 no_terminator(&mut enc, &term);
                 if o.term == Term::Nul {
                     // NUL-separated records may contain \n, where ^/$ (and hence
@@ -544,7 +567,7 @@ pub fn run_program(ctx: &mut Ctx, z3: &mut Z3, patterns: &[String], o: &ROpts) {
     // ---- H-LOC (C01/C11): matches found in a buffer are exactly the matches
     // of the stripped lines (what the fast line path relies on)
     if lt.is_some() && o.term != Term::Nul && q.ctx.want("H-LOC") {
-        h_loc(&mut q, &nfa, &built, o, ascii);
+        h_loc(&mut q, &nfa, &built, o, alpha_of(ascii, eacute));
     }
 
 }
@@ -610,13 +633,11 @@ fn byte_at_is(l: usize, x: &str, c: u8) -> String {
 /// matcher).  B: the compiled pattern run over the stripped line alone.
 /// Obligation: (A has a match ending at an offset that lines::locate maps to
 /// line j)  <=>  (B has a match).
-fn h_loc(q: &mut Q, nfa: &Nfa, built: &Built, o: &ROpts, ascii: bool) {
+fn h_loc(q: &mut Q, nfa: &Nfa, built: &Built, o: &ROpts, alpha: u8) {
     let l = q.ctx.l;
     let crlf = o.term == Term::Crlf;
     let mut enc = Enc::new(l);
-    if ascii {
-        enc.assume_ascii();
-    }
+    restrict(&mut enc, alpha);
     for v in ["p0", "ls", "lc", "le"] {
         enc.declare_int(v);
     }
